@@ -105,6 +105,29 @@ class SDateTime(object):
         self.aware = aware
 
 
+class SText(object):
+    """text assembled from literal pieces and decimal renderings of symbolic non-negative integers (str(int), str.join):
+    parts is a list of ('lit', str) | ('int', z3 Int term). Two such texts are equal iff their normalised part lists are
+    (decimal renderings contain digits only and every literal between two integers is a non-digit separator)."""
+
+    def __init__(self, parts):
+        self.parts = list(parts)
+
+    def normal(self):
+        out = []
+        for kind, v in self.parts:
+            if kind == 'lit':
+                if not v:
+                    continue
+                if out and out[-1][0] == 'lit':
+                    out[-1] = ('lit', out[-1][1] + v)
+                else:
+                    out.append(('lit', v))
+            else:
+                out.append((kind, v))
+        return out
+
+
 class STimeDelta(object):
     def __init__(self, micros):
         self.micros = micros
@@ -331,7 +354,7 @@ def enum_table(cls, idx, f):
 
 def is_symbolic(x, _depth=0):
     if isinstance(x, (SInt, SBool, SSeq, SEnum, SEnumValue, SObj, SFlags, SRat, SDateTime, STimeDelta, SAbs, SStr,
-                      SCoded, SCodedValue)):
+                      SCoded, SCodedValue, SText)):
         return True
     if _depth > 4:
         return False
